@@ -847,6 +847,14 @@ protected:
       {
         // Handle chunked encoding
         requestEndPos = findChunkedRequestEnd(dataStr, headerEnd + 4);
+        if (requestEndPos == kChunkedInvalid)
+        {
+          iora::core::Logger::error("HttpServer: Invalid chunked encoding for session " +
+                                    std::to_string(sid) + " - closing connection");
+          // No lock held; guarded close (same handling as an invalid content-length).
+          closeSession(sid);
+          return;
+        }
         if (requestEndPos == std::string::npos)
         {
           break; // Need more data for chunked body
@@ -1376,7 +1384,13 @@ protected:
                               std::to_string(sid));
   }
 
-  /// \brief Find the end of a chunked request body
+  /// \brief Returned by findChunkedRequestEnd for a chunked body that can never
+  /// become valid (malformed or oversized chunk-size, missing chunk CRLF).
+  static constexpr std::size_t kChunkedInvalid = std::string::npos - 1;
+
+  /// \brief Find the end of a chunked request body (RFC 9112 §7.1).
+  /// \return offset one past the message, std::string::npos if more data is
+  /// needed, kChunkedInvalid if the body is malformed.
   std::size_t findChunkedRequestEnd(const std::string &data, std::size_t bodyStart) const
   {
     std::size_t pos = bodyStart;
@@ -1390,38 +1404,77 @@ protected:
         return std::string::npos; // Need more data
       }
 
-      // Parse chunk size (hex)
-      std::string chunkSizeStr = data.substr(pos, chunkSizeLine - pos);
-      std::size_t chunkSize;
-      try
+      // Parse chunk size: 1*HEXDIG, optionally followed by chunk extensions
+      // (";..."). std::stoul is too lenient here (sign, "0x", leading
+      // whitespace, trailing junk) and the value must be bounded before it is
+      // used in position arithmetic.
+      std::size_t chunkSize = 0;
+      std::size_t i = pos;
+      for (; i < chunkSizeLine; ++i)
       {
-        chunkSize = std::stoul(chunkSizeStr, nullptr, 16);
+        const unsigned char c = static_cast<unsigned char>(data[i]);
+        std::size_t digit;
+        if (c >= '0' && c <= '9')
+        {
+          digit = c - '0';
+        }
+        else if (c >= 'a' && c <= 'f')
+        {
+          digit = c - 'a' + 10;
+        }
+        else if (c >= 'A' && c <= 'F')
+        {
+          digit = c - 'A' + 10;
+        }
+        else
+        {
+          break;
+        }
+        chunkSize = (chunkSize << 4) | digit;
+        if (chunkSize > SessionInfo::MAX_BODY_SIZE)
+        {
+          iora::core::Logger::error("HttpServer: Chunk size exceeds body size limit");
+          return kChunkedInvalid;
+        }
       }
-      catch (...)
+      if (i == pos || (i < chunkSizeLine && data[i] != ';' && data[i] != ' ' && data[i] != '\t'))
       {
         iora::core::Logger::error("HttpServer: Invalid chunk size in chunked encoding");
-        return std::string::npos;
+        return kChunkedInvalid;
       }
 
       pos = chunkSizeLine + 2; // Skip \r\n
 
       if (chunkSize == 0)
       {
-        // Final chunk, look for final \r\n
-        auto finalCRLF = data.find("\r\n", pos);
-        if (finalCRLF == std::string::npos)
+        // Last chunk: skip the (possibly empty) trailer section, which ends
+        // with an empty line.
+        while (true)
         {
-          return std::string::npos; // Need more data
+          auto lineEnd = data.find("\r\n", pos);
+          if (lineEnd == std::string::npos)
+          {
+            return std::string::npos; // Need more data
+          }
+          if (lineEnd == pos)
+          {
+            return lineEnd + 2;
+          }
+          pos = lineEnd + 2;
         }
-        return finalCRLF + 2;
       }
 
-      // Skip chunk data + trailing \r\n
-      pos += chunkSize + 2;
-      if (pos > data.length())
+      // Skip chunk data + trailing \r\n (chunkSize <= MAX_BODY_SIZE, no overflow)
+      if (data.length() - pos < chunkSize + 2)
       {
         return std::string::npos; // Need more data
       }
+      if (data.compare(pos + chunkSize, 2, "\r\n") != 0)
+      {
+        iora::core::Logger::error("HttpServer: Chunk data not terminated by CRLF");
+        return kChunkedInvalid;
+      }
+      pos += chunkSize + 2;
     }
 
     return std::string::npos;
